@@ -26,12 +26,34 @@ func execCbor(op string, a []string) string {
 			return "err-reencode"
 		}
 		return "ok " + hx(out)
+	case "cbor.enc":
+		v, _ := parseVal(a, 0)
+		out, err := key.MarshalCBOR(v)
+		if err != nil {
+			return "err"
+		}
+		// the library's own decoder must accept what the library encodes
+		var back any
+		if err := key.UnmarshalCBOR(out, &back); err != nil {
+			return "ok " + hx(out) + " undecodable"
+		}
+		return "ok " + hx(out)
 	}
 	return "unknown-op"
 }
 
 func genCbor(r *rand.Rand, n int) []string {
 	var out []string
+	for i := 0; i < n/2; i++ {
+		switch r.Intn(3) {
+		case 0:
+			out = append(out, "cbor.enc "+genMapTok(r, 3, r.Intn(12)))
+		case 1:
+			out = append(out, "cbor.enc "+genMapTok(r, 1, 20+r.Intn(300)))
+		default:
+			out = append(out, "cbor.enc "+genValTok(r, 3))
+		}
+	}
 	for i := 0; i < n; i++ {
 		exotic := r.Intn(4) == 0
 		t := genTree(r, 1+r.Intn(4), exotic)
